@@ -129,3 +129,69 @@ def new_float(E, cls, vals, name):
 def is_max(obj, cls, neg):
     """Buffer equals the signed maximum of cls."""
     return same_bytes(obj, list(cls.neg_max if neg else cls.pos_max))
+
+
+# ---------------------------------------------------------------------------
+# byte stream stand-in (io.BytesIO semantics on symbolic cells)
+
+class SymStream(object):
+    """Seekable byte stream with symbolic content of concrete length.
+
+    read() returns native b'' at the end (so emptiness tests stay concrete), otherwise a
+    bytes buffer of cells; writing past the end zero-fills, as io.BytesIO does.
+    """
+    _pyvc_trusted = True
+
+    def __init__(self, cells=(), filetype=None):
+        self.cells = list(cells)
+        self.pos = 0
+        self.filetype = filetype
+        self.writes = 0
+
+    def tell(self):
+        return self.pos
+
+    def seek(self, pos, whence=0):
+        if whence == 1:
+            pos += self.pos
+        elif whence == 2:
+            pos += len(self.cells)
+        if pos < 0:
+            raise ValueError('negative seek value')
+        self.pos = pos
+        return pos
+
+    def read(self, n=-1):
+        if n is None or n < 0:
+            n = len(self.cells)
+        out = self.cells[self.pos:self.pos + n]
+        self.pos = min(len(self.cells), self.pos + len(out)) if out else self.pos
+        if not out:
+            return b''
+        if all(isinstance(c, int) for c in out):
+            return bytes(out)
+        return SBuf(out, 'bytes')
+
+    def peek(self, n=1):
+        p = self.pos
+        r = self.read(n)
+        self.pos = p
+        return r
+
+    def write(self, b):
+        cs = to_cells(b)
+        if self.pos > len(self.cells):
+            self.cells.extend([0] * (self.pos - len(self.cells)))
+        self.cells[self.pos:self.pos + len(cs)] = cs
+        self.pos += len(cs)
+        self.writes += 1
+        return len(cs)
+
+    def truncate(self, size=None):
+        if size is None:
+            size = self.pos
+        del self.cells[size:]
+        return size
+
+    def getvalue(self):
+        return SBuf(self.cells, 'bytes') if any(not isinstance(c, int) for c in self.cells) else bytes(self.cells)
